@@ -317,6 +317,16 @@ class AInt:
         return f"AInt(w={self.width},ext={self.ext})"
 
 
+class AScaled:
+    """float value = factor * (signed) integer given by bits; quantisation (int()) is NOT modelled beyond factor == 1"""
+
+    def __init__(self, aint, factor):
+        self.aint, self.factor = aint, factor
+
+    def __repr__(self):
+        return f"AScaled(x{self.factor})"
+
+
 class AEnum:
     def __init__(self, cls: ClassInfo, val: AInt):
         self.cls, self.val = cls, val
